@@ -69,6 +69,14 @@ def main():
             r["demo_passes_without_change"] = out.strip().startswith("test result: ok")
             sh("git stash pop -q", cwd=repo)
             os.remove(os.path.join(repo, "tests", "seeded_demo.rs"))
+        demosh = os.path.join(os.path.dirname(patch), "demo.sh")
+        if os.path.exists(demosh) and not os.path.exists(demo):
+            rc, out, dt = sh("bash %s %s" % (demosh, repo), cwd=repo, env=env, timeout=1800)
+            r["demo_fails_with_change"] = rc != 0
+            sh("git apply -R %s" % patch, cwd=repo)
+            rc, out, dt = sh("bash %s %s" % (demosh, repo), cwd=repo, env=env, timeout=1800)
+            r["demo_passes_without_change"] = rc == 0
+            sh("git apply %s" % patch, cwd=repo)
         for tier in ["quick", "thorough"]:
             rc, out, dt = sh("./check %s %s" % (prop, tier), cwd=verif, env=env, timeout=3600)
             viol = [l for l in out.splitlines() if l.startswith("VIOLATION")]
